@@ -168,6 +168,28 @@ def run(rep, tier, seed, tr_errors):
                 stats["worst_lm_error"] = max(stats["worst_lm_error"], err)
                 if err > 1e-6:
                     bad.append((desc, "Loewner method: (tau_k, R_k) recovered only to %.3g" % err))
+                if mo == 0 and mm == "matrix_rank":
+                    # scalings: Z x k multiplies the gammas and keeps the time constants; f x c divides the time constants
+                    k, c = 10 ** rng.uniform(-2, 2), 2.0 ** rng.randint(-5, 5)
+                    try:
+                        r1 = drt(f, k * Z, method="lm", model_order=mo, model_order_method=mm, num_procs=1)
+                        r2 = drt(c * f, Z, method="lm", model_order=mo, model_order_method=mm, num_procs=1)
+                        stats["scalings"] += 2
+                        rep.evaluations += 2
+
+                        def sorted_pairs(r_):
+                            t_, g_ = np.asarray(r_.time_constants), np.asarray(r_.gammas)
+                            o_ = np.argsort(t_)
+                            return t_[o_], g_[o_]
+                        t0, g0 = sorted_pairs(r)
+                        t1, g1 = sorted_pairs(r1)
+                        t2, g2 = sorted_pairs(r2)
+                        if len(t1) != len(t0) or not (np.allclose(t1, t0, rtol=1e-6) and np.allclose(g1, k * g0, rtol=1e-6, atol=1e-9 * k * float(np.max(abs(g0))))):
+                            bad.append((dict(desc, scale=k), "Loewner method: Z x %.4g does not multiply the gammas by the factor / changes the time constants" % k))
+                        if len(t2) != len(t0) or not (np.allclose(t2, t0 / c, rtol=1e-6) and np.allclose(g2, g0, rtol=1e-6, atol=1e-9 * float(np.max(abs(g0))))):
+                            bad.append((dict(desc, f_scale=c), "Loewner method: f x %.4g does not divide the time constants by the factor / changes the gammas" % c))
+                    except Exception as e:  # noqa
+                        bad.append((desc, "Loewner scaling run raised %s: %s" % (type(e).__name__, str(e)[:100])))
     rep.extra["runs"] = stats
     rep.samples = [{"ladder": ladder(random.Random(1), 2, "RC")[0]}]
     rep.oblige("drt-runs: non-negative, area = R_pol, peaks at R*C, exact Loewner recovery, m(RQ)fit area, scalings", not bad, "%s; %d failures" % (stats, len(bad)))
